@@ -735,15 +735,26 @@ func (fc *funcContext) translateAssign(lhs, rhs ast.Expr, define bool) string {
 				fc.pkgCtx.errList = append(fc.pkgCtx.errList, types.Error{Fset: fc.pkgCtx.fileSet, Pos: l.Index.Pos(), Msg: "cannot use js.Object as map key"})
 			}
 			keyVar := fc.newLocalVariable("_key")
+			key := fc.translateImplicitConversionWithCloning(l.Index, t.Key()).String()
+			value := fc.translateImplicitConversionWithCloning(rhs, t.Elem()).String()
+			prefix := ""
+			if info := fc.pkgCtx.Info.Info; analysis.HasSideEffect(rhs, info) && !analysis.HasSideEffect(l.X, info) {
+				// The right-hand side is evaluated before the assignment (with its nil map
+				// check) is carried out, but after the key.
+				valueVar := fc.newLocalVariable("_rhs")
+				prefix = fmt.Sprintf("%s = %s; ", valueVar, value)
+				value = valueVar
+			}
 			return fmt.Sprintf(
-				`%s = %s; (%s || $throwRuntimeError("assignment to entry in nil map")).set(%s.keyFor(%s), { k: %s, v: %s });`,
+				`%s = %s; %s(%s || $throwRuntimeError("assignment to entry in nil map")).set(%s.keyFor(%s), { k: %s, v: %s });`,
 				keyVar,
-				fc.translateImplicitConversionWithCloning(l.Index, t.Key()),
+				key,
+				prefix,
 				fc.translateExpr(l.X),
 				fc.typeName(t.Key()),
 				keyVar,
 				keyVar,
-				fc.translateImplicitConversionWithCloning(rhs, t.Elem()),
+				value,
 			)
 		}
 	}
@@ -795,15 +806,24 @@ func (fc *funcContext) translateAssign(lhs, rhs ast.Expr, define bool) string {
 	case *ast.StarExpr:
 		return fmt.Sprintf("%s.$set(%s);", fc.translateExpr(l.X), rhsExpr)
 	case *ast.IndexExpr:
+		// The right-hand side is evaluated before the assignment (with its nil and range
+		// checks) is carried out.
+		rhsStr, prefix := rhsExpr.String(), ""
+		if info := fc.pkgCtx.Info.Info; analysis.HasSideEffect(rhs, info) &&
+			!analysis.HasSideEffect(l.X, info) && !analysis.HasSideEffect(l.Index, info) { // otherwise their relative order would change
+			tmp := fc.newLocalVariable("_rhs")
+			prefix = fmt.Sprintf("%s = %s; ", tmp, rhsStr)
+			rhsStr = tmp
+		}
 		switch t := fc.typeOf(l.X).Underlying().(type) {
 		case *types.Array, *types.Pointer:
 			pattern := rangeCheck("%1e[%2f] = %3s", fc.pkgCtx.Types[l.Index].Value != nil, true)
 			if _, ok := t.(*types.Pointer); ok { // check pointer for nil (attribute getter causes a panic)
 				pattern = `%1e.nilCheck, ` + pattern
 			}
-			return fc.formatExpr(pattern, l.X, l.Index, rhsExpr).String() + ";"
+			return prefix + fc.formatExpr(pattern, l.X, l.Index, rhsStr).String() + ";"
 		case *types.Slice:
-			return fc.formatExpr(rangeCheck("%1e.$array[%1e.$offset + %2f] = %3s", fc.pkgCtx.Types[l.Index].Value != nil, false), l.X, l.Index, rhsExpr).String() + ";"
+			return prefix + fc.formatExpr(rangeCheck("%1e.$array[%1e.$offset + %2f] = %3s", fc.pkgCtx.Types[l.Index].Value != nil, false), l.X, l.Index, rhsStr).String() + ";"
 		default:
 			panic(fmt.Sprintf("Unhandled lhs type: %T\n", t))
 		}
